@@ -148,6 +148,11 @@ func (rm *Manager) getCustomizeHookResponse(parent *unstructured.Unstructured) (
 		if err := rm.customizeHook.Call(request, &response); err != nil {
 			return nil, err
 		}
+		for _, rule := range response.RelatedResourceRules {
+			if rule == nil {
+				return nil, fmt.Errorf("customize hook response contains a null related resource rule")
+			}
+		}
 
 		rm.customizeCache.Set(customizeKey{parent.GetUID(), parent.GetGeneration()}, &response)
 		return &response, nil
